@@ -64,6 +64,8 @@ def run_write_config(ctx, v, user, current, set_ok=True, proto_v=None, reject=No
         cid = k.get("configId", a[0] if a else None)
         name = cid.name
         okr, cur = current(name, k, px)
+        if okr == "timeout":
+            return Outcomes(RAISE("TimeoutError"))  # the read is not answered within the command timeout
         return (es["SUCCESS"] if okr else es["ERR_FATAL"], cur)
 
     state = {}
@@ -71,7 +73,7 @@ def run_write_config(ctx, v, user, current, set_ok=True, proto_v=None, reject=No
     def wrap_get(px, t, a, k, fr):
         r = getcfg(px, t, a, k, fr)
         cid = k.get("configId", a[0] if a else None)
-        state[cid.name] = r
+        state[cid.name] = r if isinstance(r, tuple) else ("timeout", None)
         return r
 
     # statuses carry the type the version's response schema declares (legacy EmberStatus/EzspStatus below v14, sl_Status from v14)
@@ -93,13 +95,20 @@ def run_write_config(ctx, v, user, current, set_ok=True, proto_v=None, reject=No
     px = PX(repo, models=models, inline=same_class(), max_paths=200, max_depth=5)
     pc = repo.cls(f"bellows.ezsp.v{pv}", f"EZSPv{pv}")
 
+    given = {}
+
     def setup():
-        return self_obj(ez, {"_ezsp_version": v, "_protocol": Obj(pc, {}, tag="proto")}), {"config": dict(user)}
+        given["config"] = dict(user)
+        return self_obj(ez, {"_ezsp_version": v, "_protocol": Obj(pc, {}, tag="proto")}), {"config": given["config"]}
 
     paths = px.explore(f, setup)
     if len(paths) != 1:
         raise AnalysisError(f"write_config: {len(paths)} paths on a concrete scenario (v{v}, overrides {user})")
     p = paths[0]
+    # the caller keeps using the dict it passed (the application writes the configuration again after every reset)
+    ctx.require(given["config"] == dict(user) and list(given["config"]) == list(user), "argument-mutated",
+                f"write_config modifies the configuration dict it is given: {dict(user)!r} -> {given['config']!r}; the next write (after a reset) no longer "
+                "sees what the user specified", func=f)
     sets = []
     for e in p.events:
         if e.kind == "await" and e.what == "self.setConfigurationValue":
@@ -128,6 +137,8 @@ def _range_min(validator):
 def cur_factory(mode):
     def current(name, k, px):
         # the value the NCP reports relative to what the host is about to write is decided after the fact
+        if mode == "timeout":
+            return ("timeout", None)
         return (mode != "unreadable", {"below": 0, "above": 10 ** 6, "unreadable": 0}[mode])
 
     return current
@@ -243,6 +254,14 @@ def r16_2(ctx):
                                           trace=[f"set {n}={val!r} (NCP had {rd!r})" for n, val, rd in sets], construct=key)
                     else:
                         ctx.ok(1, key)
+    # a read that is not answered in time tells nothing about the NCP's value: the write either aborts (the time-out propagates)
+    # or leaves grow-only settings alone - it never writes a capacity default over a value it could not read
+    for v in VERSIONS:
+        f, p, sets = run_write_config(ctx, v, {}, cur_factory("timeout"), True)
+        n_runs += 1
+        blind = [n for n, val, rd in sets if CAPACITY.search(n) and rd is not None and rd[0] == "timeout"]
+        ctx.require(not blind, f"write_config:read-timeout:v{v}", f"v{v}: the read of {blind[:3]} timed out and the capacity default was written anyway: an NCP holding "
+                    "a larger value is lowered", func=f)
     if ctx.run.tier == "thorough":
         # every key of every version's schema, overridden and disabled
         for v in VERSIONS:
